@@ -39,6 +39,15 @@ def main ():
     out.append("| %s%s | %s | %s | %s | %s |" % (n, " (adapted)" if m.get("adapted") else "", summ,
                "ok" if c.get("baseline_46_still_pass") else "?", {0: "no", None: "?"}.get(c.get("demo_exit_with_patch"), "yes"),
                ("**yes** " + keys) if c.get("detected") else "**NO**"))
+  out.append("")
+  out.append("### 9.6 What the committed quick-tier evidence files measured\n")
+  out.append("| property | level | evaluations | states | transitions | distinct outcomes | exhaustive within bound | known findings reproduced | wall s |")
+  out.append("|---|---|---|---|---|---|---|---|---|")
+  ed = os.path.join(HERE, "evidence")
+  for n in sorted(os.listdir(ed)):
+    e = json.load(open(os.path.join(ed, n))); c = e["coverage"]
+    out.append("| %s | %s | %s | %s | %s | %s | %s | %d | %s |" % (e["property_id"], e["level"], c.get("evaluations"), c.get("states"),
+               c.get("transitions"), c.get("distinct_nontrivial"), c.get("exhaustive"), len(c.get("known_findings_reproduced", [])), e["wall_s"]))
   text = "\n".join(out) + "\n"
   p = os.path.join(HERE, "DESIGN.md")
   s = open(p).read()
